@@ -32,7 +32,7 @@ sh("git apply %s" % patch, cwd=REPO)
 rc1, out1 = sh("cargo test -p %s --offline --test %s 2>&1 | tail -25" % (crate, tname), cwd=REPO)
 meta["demo_fails_with_change"] = ("test result: FAILED" in out1) or ("error: test failed" in out1)
 os.remove(os.path.join(REPO, crate, "tests", tname + ".rs"))
-rc2, out2 = sh("cargo test --workspace --no-fail-fast --offline 2>&1 | grep -E '^test result|FAILED|failed' | head -20", cwd=REPO)
+rc2, out2 = sh("cargo test --workspace --no-fail-fast --offline --lib --bins --tests 2>&1 | grep -E '^test result|FAILED|failed' | head -20", cwd=REPO)
 # doctests are not part of the pinned baseline (124 unit/integration tests) and time out under load (1 ms default limit)
 # token::tests::basic is listed as flaky in /root/.vp/BASELINE.json (RunLimit(Timeout) under load)
 fails = [l for l in out2.split("\n") if "FAILED" in l and "(line " not in l and "authorizer_display_before" not in l and "token::tests::basic" not in l and "test result" not in l]
